@@ -33,6 +33,7 @@ Definition tstep (w : tworld) (o : op) : tworld :=
              tsess := update_nth sid t_clear (tsess w); tts := tts w; tnext := tnext w |}
       | None => w
       end
+  | SaveFail _ => w
   | NewSession =>
       {| tfile := tfile w; tsess := tsess w ++ [map (fun x => (None, (fst (snd x), snd (snd x), false))) (tfile w)];
          tts := tts w; tnext := tnext w |}
@@ -221,7 +222,7 @@ Proof. unfold tags_of, t_clear. rewrite map_map. reflexivity. Qed.
 
 Theorem tstep_inv w o : INV w -> INV (tstep w o).
 Proof.
-  intros [Hb Hs Hk]. destruct o as [sid c now|sid| |sid off|sid|]; cbn [tstep].
+  intros [Hb Hs Hk]. destruct o as [sid c now|sid|sid| |sid off|sid|]; cbn [tstep].
   - (* Add *)
     destruct (trim c) as [|c0 c'] eqn:Et; [constructor; assumption|].
     constructor; cbn [tfile tsess tnext]; unfold file_tags; cbn [tfile].
@@ -277,6 +278,7 @@ Proof.
         -- intros m Hm. rewrite Hft in Hm. apply in_app_or in Hm as [Hm|Hm]; [exact Hm|].
            exfalso. assert (fst (k, m) = sid) by (apply (H1 (k, m)); eapply subl_in; eassumption). cbn in *. congruence.
         -- intros t Ht. rewrite Hft. apply in_or_app. left. exact Ht.
+  - (* SaveFail *) constructor; assumption.
   - (* NewSession *)
     constructor; cbn [tfile tsess tnext]; unfold file_tags; cbn [tfile]; try assumption.
     intros k l Hn. destruct (Nat.lt_ge_cases k (length (tsess w))) as [Hlt|Hge].
@@ -330,7 +332,7 @@ Qed.
 
 Theorem tstep_erase w o : terase (tstep w o) = astep (terase w) o.
 Proof.
-  destruct o as [sid c now|sid| |sid off|sid|]; cbn [tstep astep].
+  destruct o as [sid c now|sid|sid| |sid off|sid|]; cbn [tstep astep].
   - destruct (trim c) as [|c0 c'] eqn:Et; [reflexivity|].
     unfold terase, with_sess; cbn [tfile tsess tts afile asess ats]. f_equal.
     apply map_update_nth'. intros l. rewrite map_app. reflexivity.
@@ -339,6 +341,7 @@ Proof.
     unfold terase; cbn [tfile tsess tts afile asess ats]. f_equal.
     + rewrite map_app. f_equal. rewrite <- erase_unsaved, !map_map. reflexivity.
     + apply map_update_nth'. intros l'. unfold t_clear, a_clear_flags. rewrite !map_map. reflexivity.
+  - reflexivity.
   - unfold terase, with_sess; cbn [tfile tsess tts afile asess ats]. f_equal.
     rewrite map_app. f_equal. cbn [map]. f_equal. rewrite !map_map. reflexivity.
   - unfold terase, with_sess; cbn [tfile tsess tts afile asess ats]. f_equal.
